@@ -64,6 +64,12 @@ decreasing_by
   · omega
   · have := child_lt ‹_ ∈ _›; omega
 
+/-- the page numbers of the tree are pairwise distinct: every page has one place in the tree (true
+of every b-tree SQLite writes; `nodes` lists the same page numbers for `table = true` and `false`,
+Proofs/TreeParse.lean `nodes_numbers`).  The repaired `get_b_tree_root_page` refuses a tree in
+which a page is reached twice, so the round-trip theorems about it assume this. -/
+def PagesDistinct (T : TTree) : Prop := ((T.nodes true).map (·.1)).Nodup
+
 /-- the cells of the leaf pages, in the same order -/
 def leafCells : TTree → List CellSpec
   | leaf _ cells => cells
